@@ -5,7 +5,7 @@ import NeoFS.Model.NNS
 op line:  `op <now> <sig> <cmt> <caller> <ip> <recv> <method> <args…>`
   now    block time in ms (for `q.*` lines: the block time of the test invocation)
   sig    comma separated hex script hashes of the Global-scope signers, `-` = none
-  cmt    1 when the committee multisignature account signs
+  cmt    `k/l`: a k-of-l multisignature account of the l committee keys signs (0 = none; `1` = `1/1`)
   caller hex script hash of the forwarding contract, `-` = called from the entry script
   ip     verdict of checkIPv4/checkIPv6 on the data argument (the scanners are the subject of C18)
   recv   0/1/2: receiver is no contract / a contract with onNEP11Payment / a contract without it
@@ -55,10 +55,20 @@ def retStr : Ret → String
   | .bool false => "false"
   | .int z => s!"{z}"
 
+/-- `k/l`: a k-of-l multisignature account of the l committee keys signs (k = 0: none); the short forms `0`
+and `1` stand for `0/1` and `1/1` (single-member committee) -/
+def parseCmt (cmt : String) : Option (Nat × Nat) :=
+  match cmt.splitOn "/" with
+  | [k, l] => match parseNat? k, parseNat? l with
+    | some k, some l => some (k, l)
+    | _, _ => none
+  | [k] => (parseNat? k).map (fun k => (k, 1))
+  | _ => none
+
 def mkEnv (now sig cmt caller ip recv : String) : Option Env :=
-  match parseInt? now, parseNat? recv with
-  | some t, some rc => some ⟨parseHexList sig, parseHex caller, cmt == "1", t, nameSyntaxOK, ip == "1", rc⟩
-  | _, _ => none
+  match parseInt? now, parseNat? recv, parseCmt cmt with
+  | some t, some rc, some (k, l) => some ⟨parseHexList sig, parseHex caller, k, l, t, nameSyntaxOK, ip == "1", rc⟩
+  | _, _, _ => none
 
 def ints (xs : List String) : Option (List Int) := xs.mapM parseInt?
 
